@@ -3,12 +3,12 @@
 # it), git -C /repo checkout -- . ; writes seeded/RESULTS.md. Exactly the procedure of the brief.
 set -u
 cd /verif
-OUT=seeded/RESULTS.md
+OUT=${SWEEP_OUT:-seeded/RESULTS.md}
 { echo "# Seeded changes: results of the registered quick checks with the change applied to /repo"; echo
   echo "Procedure per row: \`git -C /repo apply seeded/<id>/patch.diff\`, \`./check <ID> quick\` (VERIF_SEED=0), \`git -C /repo checkout -- .\`."
   echo "exit 1 = the check reports a VIOLATION (change detected)."; echo
   echo "| seeded change | property | check | exit | first signature |"; echo "|---|---|---|---|---|"; } > $OUT
-for d in seeded/c*/; do
+for d in ${SWEEP_ONLY:-seeded/c*/}; do
   id=$(basename $d); prop=$(python3 -c "import json;print(json.load(open('$d/meta.json'))['property'])")
   patch=/verif/$d/patch.diff; [ -f /verif/$d/patch-rebased.diff ] && patch=/verif/$d/patch-rebased.diff
   if ! git -C /repo apply --check $patch 2>/dev/null; then
@@ -17,6 +17,14 @@ for d in seeded/c*/; do
   out=$(./check $prop quick 2>&1); code=$?
   sig=$(echo "$out" | grep -m1 "signature:" | sed 's/.*signature: //')
   echo "| $id | $prop | $prop | $code | $sig |" >> $OUT
+  if [ $code -eq 0 ]; then
+    # the property's own check is silent: run the other checks that meta.json lists as catching the change
+    for other in $(python3 -c "import json,re;print(' '.join(sorted({m.group(0) for c in json.load(open('$d/meta.json')).get('caught_by',[]) for m in [re.match(r'C\d\d',c)] if m and m.group(0)!='$prop'})))"); do
+      out=$(./check $other quick 2>&1); code=$?
+      sig=$(echo "$out" | grep -m1 "signature:" | sed 's/.*signature: //')
+      echo "| $id | $prop | $other | $code | $sig |" >> $OUT
+    done
+  fi
   git -C /repo checkout -- .
 done
 git -C /repo status --short | head -3
